@@ -11,7 +11,9 @@
    "Outside the clipping margin" means u_i = (x_i - lower_i)/(upper_i - lower_i) lies in [eps, 1-eps] (and in (0,1)). *)
 From Coq Require Import Reals List Bool ZArith.
 From Coquelicot Require Import Coquelicot.
+From Coq Require Floats.PrimFloat.
 From AV Require Import Lib.Vec Gen.Kernels Gen.Transforms Proofs.C04.
+From AV Require Model.PeriodicF Proofs.C04f64.
 Import ListNotations.
 Open Scope R_scope.
 
@@ -297,3 +299,14 @@ Proof. exact composite_orders. Qed.
 
 Print Assumptions C04_composite.
 Print Assumptions C04_composite_order.
+
+(* KNOWN FINDING (known_findings.json: periodic-range-f64:tiny-negative-offset).  C04_periodic_forward_spec is about exact reals.
+   In binary64 the half-open range is refuted: on the model of the wrap that the C04 check ties bit for bit to
+   PeriodicTransform.forward (Model/PeriodicF.v, valid for |x - lower| < width), x = -1e-17 on [0, 2 pi) is mapped to exactly
+   upper.  Witness evaluated by vm_compute. *)
+Theorem C04_periodic_range_binary64_refuted :
+  exists x lo up : PrimFloat.float,
+    PeriodicF.fwrap_dom x lo up = true /\ PrimFloat.ltb lo up = true /\ PrimFloat.ltb x lo = true
+    /\ PrimFloat.eqb (PeriodicF.fwrap x lo up) up = true.
+Proof. exact C04f64.periodic_range_binary64_refuted. Qed.
+Print Assumptions C04_periodic_range_binary64_refuted.
